@@ -115,7 +115,7 @@ func TestGovAction(t *testing.T) {
 		if ev["res"] == "ok" {
 			// the chain goes on
 			for i := 0; i < 2; i++ {
-				if _, err := c.e.DeliverBlock(c.build(duty(c.e.Height))); err != nil {
+				if _, err := c.e.DeliverBlock(c.dutyTxs()); err != nil {
 					ev["res"], ev["stack"] = "abort", shortStack(err.Error())
 					break
 				}
